@@ -406,6 +406,44 @@ def run(db, rep, tier):
                         "find_pdu<T>(type) is called with its default argument T::pdu_flag"]
 
 
+def search_member_ok(db, callee):
+    """None when `callee` (a PDU member taking the flag) returns only null or the object variable on which
+    matches_flag(<the flag parameter>) has just succeeded, and its cursor only moves to inner_pdu(); else the reason"""
+    from vlib import cfg, cond
+    h = db.fn(callee)
+    if h is None or not h.get("body") or h.get("rec") != "Tins::PDU" or len(h.get("params", ())) != 1:
+        return "not a readable member of PDU"
+    g = cfg.FnCFG(h)
+    pv = h["params"][0]["var"]
+    n_obj = 0
+    for r in facts.fn_nodes(h):
+        if r["k"] != "ReturnStmt" or not r.get("c"):
+            continue
+        v = facts.strip_all(r["c"][0])
+        if facts.cval(v) == 0 or v["k"] in ("CXXNullPtrLiteralExpr", "GNUNullExpr", "IntegerLiteral"):
+            continue
+        if v["k"] != "DeclRefExpr" or not v.get("var"):
+            return "it returns `%s`, not a plain object variable" % facts.expr_str(v)[:50]
+        okg = False
+        for op, l, rr in cond.guards_facts(g, g.pos(r)):
+            c = strip(l)
+            if op == "true" and c["k"] == "CXXMemberCallExpr" and c.get("cname") == "matches_flag" and len(c["c"]) == 2:
+                obj = facts.strip_all(c["c"][0]["c"][0]) if c["c"][0].get("c") else None
+                if obj is not None and obj.get("var") == v["var"] and facts.strip_all(c["c"][1]).get("var") == pv:
+                    okg = True
+        if not okg:
+            return "it returns `%s` without matches_flag(%s) having succeeded on that same object" % (v.get("name"), h["params"][0].get("name"))
+        n_obj += 1
+    for x in facts.fn_nodes(h):
+        if x["k"] == "BinaryOperator" and x.get("op") == "=" and strip(x["c"][0])["k"] == "DeclRefExpr":
+            rhs = strip(x["c"][1])
+            if not (rhs["k"] == "CXXMemberCallExpr" and rhs.get("cname") == "inner_pdu"):
+                return "its search cursor is assigned `%s`" % facts.expr_str(rhs)[:60]
+    if n_obj == 0:
+        return "it never returns a tested object"
+    return None
+
+
 def helpers(db, rep, F):
     """The table above decides soundness GIVEN what the helper templates do; this rule decides what they do, on every
     instantiation the library itself makes."""
@@ -462,6 +500,17 @@ def helpers(db, rep, F):
                           "whose type flag it compared" % facts.expr_str(v)[:70]
                     break
                 x = facts.strip_all(v["c"][0])
+                if is_find and x["k"] == "CXXMemberCallExpr" and x.get("callee") and len(x["c"]) == 2 and \
+                        facts.strip_all(x["c"][1]).get("var") in tparam and \
+                        (not x["c"][0].get("c") or facts.strip_all(x["c"][0]["c"][0])["k"] == "CXXThisExpr"):
+                    # the type-independent part of the search lives in a member of its own: that member hands back null or
+                    # the object whose matches_flag(<its parameter>) succeeded, walking this -> inner_pdu() only
+                    why = search_member_ok(db, x["callee"])
+                    if why is None:
+                        casts += 1
+                        continue
+                    bad = "casts the result of %s(): %s" % (x.get("cname"), why)
+                    break
                 if x["k"] != "DeclRefExpr" or not x.get("var"):
                     bad = "casts `%s`, not a plain object variable" % facts.expr_str(v["c"][0])[:60]
                     break
